@@ -175,6 +175,18 @@ def run_forward(sx, cfg, env):
     spec = cfg["cm"]
     cat = spec["cat"]
     x, (xn, xd) = operand(sx, "x", cfg["it"], cfg["bits"])
+    if cfg.get("prior"):
+        cm = build_cm(cfg["build"])["cm"]  # a fresh object per path: paths stay independent
+        # the conversion is a function of the value: an earlier conversion of ANOTHER (independent,
+        # symbolic) value on the same object must not influence the result checked below
+        x0, _ = operand(sx, "x0", cfg["it"], 8)
+        try:
+            if cm.is_valid_internal_value(x0):
+                y0 = cm.convert_internal_to_physical(x0)
+                if cm.is_valid_physical_value(y0):
+                    cm.convert_physical_to_internal(y0)
+        except OdxError:
+            pass
     # ---- validity
     if cat in ("LINEAR", "SCALE-LINEAR", "RAT-FUNC", "SCALE-RAT-FUNC", "TEXTTABLE"):
         seg = _seg_of(spec, x)
@@ -567,6 +579,11 @@ def methods(tier):
           "inv_scales": [{"num": [0, 2], "den": [1], "lo": 0, "hi": 5},
                          {"num": [25, 1], "den": [3], "lo": {"v": 5, "it": "OPEN"}, "hi": 95}]}
     out.append(("SCALE-RAT-FUNC", "A_INT32", "A_FLOAT64", cm, "two-inv"))
+    # two scales that share the point 10 with different formulas: the first applicable scale counts
+    cm = {"cat": "SCALE-RAT-FUNC",
+          "scales": [{"num": [0, 10], "den": [1], "lo": 0, "hi": 10},
+                     {"num": [0, 2], "den": [1], "lo": 10, "hi": 20}]}
+    out.append(("SCALE-RAT-FUNC", "A_INT32", "A_FLOAT64", cm, "overlap"))
     # TEXTTABLE
     tt = {"cat": "TEXTTABLE", "scales": [
         {"lo": 0, "hi": 0, "const": "off"}, {"lo": 1, "hi": 10, "const": "low"},
@@ -597,6 +614,11 @@ def configs(tier, seed):
         base = {"cm": cm, "it": it_, "pt": pt_, "build": {"cm": cm, "it": it_, "pt": pt_}}
         b = bits if not (tier == "thorough" and cat == "LINEAR" and it_ in INTS and pt_ in INTS) else 16
         out.append(dict(base, harness="forward", bits=b, id=f"forward/{cat}/{it_}-{pt_}/{name}"))
+        if cat in ("SCALE-RAT-FUNC", "SCALE-LINEAR", "TAB-INTP", "TEXTTABLE") and it_ in INTS and \
+                (tier == "thorough" or name in ("two", "overlap") or
+                 (cat == "TAB-INTP" and name == "incr" and pt_ in INTS)):
+            out.append(dict(base, harness="forward", bits=8, prior=True,
+                            id=f"forward-after/{cat}/{it_}-{pt_}/{name}"))
         if cat in ("LINEAR", "IDENTICAL"):
             out.append(dict(base, harness="inverse", bits=b, id=f"inverse/{cat}/{it_}-{pt_}/{name}"))
         if cat == "TAB-INTP" and name in ("incr", "decr", "steep"):
